@@ -4,6 +4,7 @@
 #include "constant_readout.hh"
 #include "au/math.hh"
 #include <cmath>
+#include <utility>
 #include <vector>
 namespace auv {
 using namespace au;
@@ -88,8 +89,12 @@ template <typename U1, typename U2, typename F> void wrappers(uint64_t seed) {
     long long n = 0, bad = 0;
     auto vals = test_values<F>(seed ^ 5, std::false_type{});
     vals.push_back(std::numeric_limits<F>::quiet_NaN()); vals.push_back(std::numeric_limits<F>::infinity());
-    for (size_t i = 0; i + 1 < vals.size(); ++i) {
-        F x = vals[i], y = vals[i + 1];
+    // consecutive pairs of the value list, then a grid of halves and small integers (exact ties of remainder / fmod, equal operands, signs)
+    std::vector<std::pair<F, F>> pairs;
+    for (size_t i = 0; i + 1 < vals.size(); ++i) pairs.push_back({vals[i], vals[i + 1]});
+    for (int xi = -17; xi <= 17; ++xi) for (int yi = -6; yi <= 6; ++yi) if (yi != 0) { pairs.push_back({F(xi) / 2, F(yi) / 2}); pairs.push_back({F(xi), F(yi)}); pairs.push_back({F(xi) * F(1.5), F(yi)}); }
+    for (const auto &pr : pairs) {
+        F x = pr.first, y = pr.second;
         auto a = make_quantity<U1>(x); auto b = make_quantity<U2>(y);
         F xa = a.in(U{}), yb = b.in(U{});
         ++n;
